@@ -921,6 +921,17 @@ func corpus() {
 			s.baseDesc = fd
 			doC31 = true
 		}
+		if fd != nil {
+			// is the stable compiler deterministic on this file at all?
+			for i := 0; i < 3; i++ {
+				if fd2, err2 := stableCompile(c.Aux, c.Text); err2 == nil {
+					if _, d := descDiff(fd, fd2); d != "" {
+						fmt.Printf("%s: NOTE two compilations of the same text differ: %s\n", c.Key, d)
+						break
+					}
+				}
+			}
+		}
 		trimmed := strings.TrimRight(c.Text, " \t\r\n")
 		o := evaluate(s, c.Text, c.Text, len(trimmed))
 		if o.harness != "" {
